@@ -370,7 +370,7 @@ func c18AsPathPattern(s *verifgen.Src, label func(string)) (in, want string, sin
 	case 4:
 		label("as-path-pattern/regexp-underscore")
 		p := verifgen.Pick(s, []string{"^65100_65001", "65100_[0-9]+_.*$", "^6[0-9]_5.*_65.?00$", fmt.Sprintf("^%d_%d_", asn, asn+1)})
-		return p, strings.ReplaceAll(p, "_", c18AsPathMagic), false
+		return p, p, false // listed in the configured notation (since the C10-F1 repair; the expanded form was listed before)
 	default:
 		label("as-path-pattern/regexp")
 		p := verifgen.Pick(s, []string{"^65[0-9]+$", "^65100", "[0-9]+ 65001$", "^(65001|65002) "})
